@@ -11,12 +11,12 @@ import (
 
 // Val is the symbolic value of one Go value: a tree whose leaves are SMT terms.
 type Val struct {
-	T types.Type
-	S string // scalar term (scalar kinds)
-	F []Val  // components (struct fields / slice parts / tuple members / array leaf-arrays)
-	A *Addr  // non first-class address (pointer to a scalar field / element)
-	GhostArr bool // S is the SMT array of a ghost map field
-	NN bool  // pointer/interface known (or assumed, see DESIGN A2) to be non-nil
+	T        types.Type
+	S        string // scalar term (scalar kinds)
+	F        []Val  // components (struct fields / slice parts / tuple members / array leaf-arrays)
+	A        *Addr  // non first-class address (pointer to a scalar field / element)
+	GhostArr bool   // S is the SMT array of a ghost map field
+	NN       bool   // pointer/interface known (or assumed, see DESIGN A2) to be non-nil
 
 	// static knowledge
 	Fn    *ssa.Function // statically known function (closures, function values)
@@ -28,9 +28,9 @@ type Val struct {
 type addrKind int
 
 const (
-	aField addrKind = iota // leaf field f of struct object Ref
-	aElem                  // element Idx of backing array Ref
-	aGlobal                // package-level variable
+	aField  addrKind = iota // leaf field f of struct object Ref
+	aElem                   // element Idx of backing array Ref
+	aGlobal                 // package-level variable
 )
 
 type Addr struct {
